@@ -529,3 +529,37 @@ Proof.
   cbv zeta. unfold svg_tf_term. cbn [g_svg_term_min_width_px g_svg_term_background g_svg_term_bg_color g_svg_term_fg_color g_svg_term_palette].
   cbn. rewrite !svg_of_to_color. repeat split.
 Qed.
+
+(* ---- render_svg translated once more, over the WHOLE struct (every `self.<field>` is a field of [svg_term_full]) ----
+   On a term that keeps [svg_tf_consts] it is [g_svg_render] on the projections: reading font_family / padding_px as
+   constants and min_width_px from the oracle (the vocabulary of g_svg_render) is exact for every term built from
+   Term::new() by the builders. *)
+Theorem translated_render_svg_full_eq o t input :
+  svg_tf_consts t -> svg_o_min_width o = svg_tf_min_width_px t ->
+  g_svg_render_full o t input = g_svg_render o (svg_tf_term t) input.
+Proof.
+  intros [HF HP] HM. unfold g_svg_render_full, g_svg_render.
+  unfold svg_t_fg_c, svg_t_bg_c, svg_t_font_family, svg_t_padding, svg_t_min_width, svg_tf_term.
+  cbn [svg_t_palette svg_t_fg svg_t_bg svg_t_background].
+  rewrite !svg_to_of_color, HF, HP, HM. reflexivity.
+Qed.
+
+Corollary translated_render_svg_full_is_model uw ceil84 t input :
+  svg_tf_consts t ->
+  g_svg_render_full (svg_tf_oracle uw ceil84 t) t input =
+  (styled <- svg_styled (svg_tf_term t) input ;;
+   d <- svg_doc (svg_tf_term t) input ;;
+   Some (svg_print (svg_width_px (svg_tf_oracle uw ceil84 t) (svg_split_lines styled)) uw d)).
+Proof.
+  intros H. rewrite (translated_render_svg_full_eq (svg_tf_oracle uw ceil84 t) t input H eq_refl).
+  apply (translated_render_svg_is_model (svg_tf_oracle uw ceil84 t)).
+Qed.
+
+(* `Term::new().<builders>.render_svg(input)`, all of it translated *)
+Corollary translated_built_term_renders uw ceil84 bs input :
+  let t := g_svg_build g_svg_term_new bs in
+  g_svg_render_full (svg_tf_oracle uw ceil84 t) t input =
+  (styled <- svg_styled (svg_tf_term t) input ;;
+   d <- svg_doc (svg_tf_term t) input ;;
+   Some (svg_print (svg_width_px (svg_tf_oracle uw ceil84 t) (svg_split_lines styled)) uw d)).
+Proof. cbv zeta. apply translated_render_svg_full_is_model, translated_term_built_consts. Qed.
